@@ -738,6 +738,12 @@ func (t *tread) handle(cs *connState) message {
 
 	var n int
 	data := cs.readBufPool.Get().(*[]byte)
+	if uint32(len(*data)) < count {
+		// A buffer that was handed out before a later Tversion raised
+		// msize (and returned to the pool afterwards) is too small.
+		b := make([]byte, atomic.LoadUint32(&cs.messageSize))
+		data = &b
+	}
 	// Retain a reference to the full length of the buffer.
 	dataBuf := (*data)
 	if err := ref.safelyRead(func() (err error) {
